@@ -164,6 +164,18 @@ def fork_call(fn, *args):
     return val
 
 
+_KNOWN_CACHE = {}
+
+
+def _is_known(mod, prop, case, vinfo):
+    """Does this violation belong to a finding recorded (status 'known') in known_findings.json?"""
+    if not hasattr(mod, "known_match"):
+        return False
+    if prop not in _KNOWN_CACHE:
+        _KNOWN_CACHE[prop] = [e for e in load_known(prop) if e["status"] == "known"]
+    return any(mod.known_match(case, vinfo, e.get("match", {})) for e in _KNOWN_CACHE[prop])
+
+
 def _one_run(mod, prop, tier, rs, idx, want_digest, stats=None):
     own = stats is None
     if own:
@@ -181,6 +193,8 @@ def _one_run(mod, prop, tier, rs, idx, want_digest, stats=None):
             stats.samples.append(case)
     elif r[0] == "discard":
         stats.count("discard." + r[1])
+    elif _is_known(mod, prop, case, r[1]):
+        stats.count("runs_known_finding")
     else:
         stats.count("runs_violating")
         violations.append({"run_index": idx, "run_seed": rs, "case": case, "violation": r[1]})
@@ -401,7 +415,6 @@ def run_check(prop: str, tier: str, seed: int) -> int:
             exit_code = 1
 
     # 3. violations: shrink, match against known findings, write replay, verify replay
-    known_hits = 0
     seen_classes = set()
     violations.sort(key=lambda v: v["run_index"])
     for v in violations:
@@ -410,9 +423,6 @@ def run_check(prop: str, tier: str, seed: int) -> int:
             continue
         case, vinfo, execs = shrink(mod, v["case"], v["violation"])
         total["shrink_execs"] += execs
-        if any(hasattr(mod, "known_match") and mod.known_match(case, vinfo, e.get("match", {})) for e in known_open):
-            known_hits += 1
-            continue
         seen_classes.add(ck)
         path = write_replay(prop, seed, v["run_index"], case, vinfo)
         if not verify_replay_in_subprocess(prop, path):
@@ -452,7 +462,7 @@ def run_check(prop: str, tier: str, seed: int) -> int:
         "reach_probes": probes,
         "discarded_cases": discards,
         "counters": other,
-        "known_finding_hits": known_hits,
+        "known_finding_hits": int(total.get("runs_known_finding", 0)),
         "regression_cases_run": regression_runs,
         "real_components": getattr(mod, "REAL", []),
         "stub_components": getattr(mod, "STUBS", []),
@@ -481,7 +491,7 @@ def run_check(prop: str, tier: str, seed: int) -> int:
     for line in printed:
         print(line)
     print(f"{prop} tier={tier} seed={seed} runs={completed} ok={total.get('runs_ok',0)} discarded={sum(discards.values())} "
-          f"violating={total.get('runs_violating',0)} evaluations={cov['evaluations']} distinct={len(distinct)} wall={wall:.1f}s exit={exit_code}")
+          f"violating={total.get('runs_violating',0)} known={total.get('runs_known_finding',0)} evaluations={cov['evaluations']} distinct={len(distinct)} wall={wall:.1f}s exit={exit_code}")
     return exit_code
 
 
